@@ -122,7 +122,7 @@ PROPS = {
                       'covers every such chunking.',
     },
     'C15': {
-        'modules': ['C15', 'C15Headers', 'TieHs'],
+        'modules': ['C15', 'C15Headers', 'TieHs', 'TieResp'],
         'families': [('corpus:hs', 0, 0), ('hs:cuts', 1, 1), ('hs:server', 2500, 60000)],
         'rule': 'request heads from a grammar: every subset / order / casing of the required headers, near-miss values, duplicates, extra headers up to '
                 'and past the limit, key shapes, methods, versions, bare-LF line ends, byte mutations, trailing bytes, endless heads; every transport '
@@ -155,7 +155,7 @@ PROPS = {
         'level_note': 'Partial for key randomness. D9 (Host cut at the first @) and D10 (caller-built HTTP/2 request sent as GET / HTTP/2.0) were found here and fixed.',
     },
     'C17': {
-        'modules': ['C17', 'C17Client', 'TieHs'],
+        'modules': ['C17', 'C17Client', 'TieHs', 'TieResp'],
         'families': [('corpus:hs', 0, 0), ('hs:cuts', 1, 1), ('hs:server', 2500, 60000), ('hs:client', 1500, 30000)],
         'rule': 'segmentations of valid and invalid heads into up to 64+ reads, WouldBlock before any read / write / flush, partial write sizes, '
                 '1-byte drips, heads above 64 KiB, 125 headers',
